@@ -26,6 +26,7 @@ own("C05 C10", "EEqual EIsIdentity")
 own("C04 C10", "EEncode EEncodeUnc EXCoord EHex EMarshal ERescale ESetRaw")
 own("C03 C04 C10", "EDecode EUnmarshal EDecodeComp EDecodeUnc EDecodeCoords EDecodeHex")
 own("C10", "ENew EIdentity EBase ESet ECopy Reset Order Lengths")
+own("C08 C10", "Ciphersuite")
 own("C06 C10", "SNew SZero SOne SMinusOne SSetU64 SSet SSetNil SCopy SAdd SAddNil SSub SSubNil SMul SMulNil SSquare SInvert SPow SPowNil")
 own("C13 C10", "SEqual SEqualNil SIsZero SIsOne SLessOrEqual SCSelect SCSelectNil")
 own("C14", "SBits")
@@ -37,6 +38,7 @@ own("C15", "MemCall MemProbe")
 own("C16", "RaceReport Adopt")
 own("C12", "FNew FOne FSet FAdd FSub FMul FSqr FNeg FInvert FSqrtRatio FCMove FFromBytes FWide FBytes FSgn0 FIsZero FEquals FSetInt FReset")
 own("C11", "MSswu MIso")
+own("C03 C11", "MPoly")
 own("C09", "NWide")
 own("C19", "Sched")
 # in the concurrency check every disagreement is a call that did not return its sequential result
